@@ -50,6 +50,26 @@ def check(c):
     c.cov["tlc_enumerated_pattern_lists_round_tripped"] = s["rt_cases"]
     tot = lifelib.run_life(c, [["-mode", "roundtrip", "-n", "400" if thorough else "120"]] * (4 if thorough else 1),
                            "Config() round trip is not a no-op / constructors disagree")
+    # T: the VALUE of Config() against NormalForm.tla (what the normal form is, beyond what C06 requires of it): a value that is
+    #    not the normal form of the configuration's meaning is model drift; a value that still changes after one round trip is C06
+    nft, nfs = c.path("nf.ndjson"), c.path("nf.json")
+    c.run_driver(["nf", "-trace", nft, "-out", nfs, "-n", "1500" if thorough else "400"])
+    bad, res = c.validate_trace("TraceNormal", "SPECIFICATION Spec\nINVARIANT Final\nCHECK_DEADLOCK FALSE\n", nft, timeout=3000)
+    if bad:
+        from vlib import read_ndjson
+        evs = read_ndjson(nft)
+        for idx, why in bad[:40]:
+            e = evs[idx - 1]
+            if "still changes" in why:
+                c.violation("%s: configuration %s" % (why, json.dumps(e["given"])[:600]), {"why": why, "given": e["given"]})
+            else:
+                c.drift.append("NormalForm.tla: %s: configuration %s" % (why, json.dumps(e["given"])[:400]))
+    if res["stats"]["cases"] == 0 or res["stats"]["listy"] == 0:
+        raise lifelib.Infra("vacuous normal-form run: %r" % res["stats"])
+    c.cov["config_values_checked_against_NormalForm"] = res["stats"]["cases"] * 3
+    c.cov["config_values_changed_by_first_round_trip"] = res["stats"]["changed"]
+    c.cov["deviation_D1_repeated_wildcard_entries"] = res["stats"]["d1"]
+    c.cov["evaluations"] += res["stats"]["cases"] * 3
     c.cov["rule"] = ("seeded accepted configurations (IPv4 / bracketed IPv6 / trailing-dot hosts, wildcard ports and subdomains, "
                      "duplicates, subsuming patterns, * mixed with discrete values, safelisted extras, max-age -1/0, explicit 204) "
                      "x {NewMiddleware(c), NewMiddleware(*m.Config()), zero value + Reconfigure(&c)} x both debug modes, then "
